@@ -28,6 +28,7 @@ struct Model {
 struct Live {
   std::unique_ptr<update_theta_sketch> sk;
   Model m;
+  std::vector<Val> offered;   // non-ignored values offered since the last reset (bounded)
 };
 
 static uint64_t model_theta0(float p) {
@@ -177,9 +178,26 @@ void run_case(uint64_t idx, Rng& r) {
         const uint64_t h = v.ref_hash(L.m.seed).h1 >> 1;
         L.m.nonempty = true;
         L.m.seen.insert(h);
+        if (L.offered.size() < 4000) L.offered.push_back(v);
       } else count("ignored_empty_string");
       if (v.kind == V_F64 && (std::isnan(v.d) || (v.d == 0 && std::signbit(v.d)))) count("special_double");
       if (want_sample() && i < 6) sample_ops += v.to_string() + ";";
+    } else if (op < 962 && L.m.p == 1.0f && L.m.lg_k <= 9 && L.offered.size() < 4000) {
+      // targeted: bring the sketch to exactly k + d retained entries (d = 0..3) while still below the first
+      // rebuild, trim, then re-offer everything offered so far: duplicates must be recognised (no hole in the table)
+      const uint64_t kl = 1ULL << L.m.lg_k;
+      const uint64_t target = kl + r.below(4);
+      uint64_t guard = 0;
+      while (L.sk->get_num_retained() < target && L.sk->get_theta64() == MAXT && guard++ < 8 * kl) {
+        Val v = gen_val(r, 1ULL << 40, V_U64);
+        apply_update(*L.sk, v); L.m.seen.insert(v.ref_hash(L.m.seed).h1 >> 1); L.m.nonempty = true; L.offered.push_back(v);
+      }
+      if (L.sk->get_num_retained() == target && L.sk->get_theta64() == MAXT) {
+        L.sk->trim(); count("trim_at_exact_count"); if (target == kl + 1) count("trim_at_k_plus_1");
+        observe(L, "trim at exact count");
+        for (const Val& v : L.offered) apply_update(*L.sk, v);
+        observe(L, "re-offer after trim at exact count");
+      }
     } else if (op < 970) {
       const uint32_t before = L.sk->get_num_retained();
       L.sk->trim(); what = "trim"; count("trim");
@@ -189,12 +207,12 @@ void run_case(uint64_t idx, Rng& r) {
       observe(L, what);
     } else if (op < 975) {
       L.sk->reset(); what = "reset"; count("reset");
-      L.m.seen.clear(); L.m.nonempty = false; L.m.last_valid = false;
+      L.m.seen.clear(); L.m.nonempty = false; L.m.last_valid = false; L.offered.clear();
       observe(L, what);
     } else if (op < 982) {
       // copy construct: equal and independent
       if (pool.size() < 3) {
-        Live C; C.m = L.m; C.sk.reset(new update_theta_sketch(*L.sk));
+        Live C; C.m = L.m; C.offered = L.offered; C.sk.reset(new update_theta_sketch(*L.sk));
         pool.push_back(std::move(C)); what = "copy-ctor"; count("copy");
         observe(pool.back(), what);
       }
@@ -202,10 +220,10 @@ void run_case(uint64_t idx, Rng& r) {
       if (pool.size() >= 2) {
         size_t a = r.below(pool.size()), b = r.below(pool.size());
         if (a != b) {
-          *pool[a].sk = *pool[b].sk; pool[a].m = pool[b].m; count("copy_assign"); observe(pool[a], "copy-assign"); observe(pool[b], "copy-assign-source");
+          *pool[a].sk = *pool[b].sk; pool[a].m = pool[b].m; pool[a].offered = pool[b].offered; count("copy_assign"); observe(pool[a], "copy-assign"); observe(pool[b], "copy-assign-source");
           if (pool[a].m.p != m.p || pool[b].m.p != m.p) count("copy_assign_across_configs");
           if (r.coin()) {   // the assignee must behave like its source from now on, also after a reset
-            pool[a].sk->reset(); pool[a].m.seen.clear(); pool[a].m.nonempty = false; pool[a].m.last_valid = false; count("reset_after_assign");
+            pool[a].sk->reset(); pool[a].m.seen.clear(); pool[a].m.nonempty = false; pool[a].m.last_valid = false; pool[a].offered.clear(); count("reset_after_assign");
             observe(pool[a], "reset-after-copy-assign");
             for (int j = 0; j < 40; ++j) { Val v = gen_val(r, domain, fixed_kind); apply_update(*pool[a].sk, v); if (!v.ignored()) { pool[a].m.seen.insert(v.ref_hash(pool[a].m.seed).h1 >> 1); pool[a].m.nonempty = true; } }
             observe(pool[a], "updates-after-reset-after-copy-assign");
@@ -216,10 +234,10 @@ void run_case(uint64_t idx, Rng& r) {
       if (pool.size() >= 2) {
         size_t a = r.below(pool.size()), b = r.below(pool.size());
         if (a != b) {
-          *pool[a].sk = std::move(*pool[b].sk); pool[a].m = pool[b].m; count("move_assign");
+          *pool[a].sk = std::move(*pool[b].sk); pool[a].m = pool[b].m; pool[a].offered = pool[b].offered; count("move_assign");
           observe(pool[a], "move-assign");
           if (r.coin()) {
-            pool[a].sk->reset(); pool[a].m.seen.clear(); pool[a].m.nonempty = false; pool[a].m.last_valid = false; count("reset_after_assign");
+            pool[a].sk->reset(); pool[a].m.seen.clear(); pool[a].m.nonempty = false; pool[a].m.last_valid = false; pool[a].offered.clear(); count("reset_after_assign");
             observe(pool[a], "reset-after-move-assign");
             for (int j = 0; j < 40; ++j) { Val v = gen_val(r, domain, fixed_kind); apply_update(*pool[a].sk, v); if (!v.ignored()) { pool[a].m.seen.insert(v.ref_hash(pool[a].m.seed).h1 >> 1); pool[a].m.nonempty = true; } }
             observe(pool[a], "updates-after-reset-after-move-assign");
